@@ -19,4 +19,21 @@ inductive BlockEv where
   | load (offs : List (BitVec 64))
 deriving Repr, DecidableEq
 
+/-- what `BlockRngImpl::fill_bytes` does, in program order: `self.state.generate(&mut tmp)` / `(&mut self.random)`, a copy of `n` bytes from
+the start of `tmp` to offset `dst` of the destination, a copy of `n` bytes from offset `src` of the block to offset `dst` of the destination -/
+inductive FillEv where
+  | genTmp
+  | genRandom
+  | copyTmp (dst n : BitVec 64)
+  | copyRandom (src dst n : BitVec 64)
+deriving Repr, DecidableEq
+
+/-- what `System<N>::next_u32` / `next_u64` do, in program order: an assignment to `self.index`, `getentropy(&mut self.random)` (a failing
+fetch panics), the read of the word `self.random[i]` (out of bounds panics) -/
+inductive SysEv where
+  | setIndex (v : BitVec 32)
+  | fetch
+  | load (i : BitVec 64)
+deriving Repr, DecidableEq
+
 end Urandom
